@@ -33,6 +33,10 @@ func allModules() []Module {
 			{"messageHash", "protocol.Message.Hash: the items hashed", callsArgsOrMissing("pkg/protocol/message.go", "Message.Hash", `^hash\.New$`)},
 			{"canAcceptGuards", "MultiHandler.CanAccept refusal conditions", guardsIn("pkg/protocol/handler.go", "MultiHandler.CanAccept")},
 			{"twoPartyCanAcceptGuards", "TwoPartyHandler.CanAccept refusal conditions", guardsIn("pkg/protocol/twoparty.go", "TwoPartyHandler.CanAccept")},
+			{"multiHandlerLocks", "first two statements of every exported MultiHandler method", lockTable("pkg/protocol/handler.go", "MultiHandler")},
+			{"twoPartyHandlerLocks", "first two statements of every exported TwoPartyHandler method", lockTable("pkg/protocol/twoparty.go", "TwoPartyHandler")},
+			{"multiHandlerStop", "MultiHandler.Stop: guards and calls", append(guardsIn("pkg/protocol/handler.go", "MultiHandler.Stop"), callsIn("pkg/protocol/handler.go", "MultiHandler.Stop", `abort`)...)},
+			{"twoPartyHandlerStop", "TwoPartyHandler.Stop: guards and calls", append(guardsIn("pkg/protocol/twoparty.go", "TwoPartyHandler.Stop"), callsIn("pkg/protocol/twoparty.go", "TwoPartyHandler.Stop", `abort`)...)},
 			{"isFor", "Message.IsFor", append(guardsIn("pkg/protocol/message.go", "Message.IsFor"), returnsIn("pkg/protocol/message.go", "Message.IsFor")...)},
 		}},
 	}
